@@ -115,6 +115,18 @@ def family(rng, idx):
     def mk(q2=q, f2=f, path2=path, port2=port):
         return f"{pre}{user + '@' if user else ''}{host}{port2}{path2}{q2}{f2}"
 
+    # the same CONCATENATION split at different component boundaries (only pre-encoded routes can put a '?' into a path, a '#' into a
+    # query or a '/' into an authority): different components, so different URLs
+    hq = q[1:] or "x"
+    for lab, parts in (("path?|query", (sch, host, (path or "/") + "?" + hq, "y", f[1:])), ("path|query?", (sch, host, path or "/", hq + "?y", f[1:])),
+                       ("query#|frag", (sch, host, path or "/", hq + "#z", "")), ("query|#frag", (sch, host, path or "/", hq, "z")),
+                       ("host/|path", (sch, host + "/p", "", "", "")), ("host|/path", (sch, host, "/p", "", "")),
+                       ("path#|frag", (sch, host, (path or "/") + "#k", "", "")), ("path|#frag", (sch, host, path or "/", "", "k"))):
+        members.append((("shift-splitresult", lab), lambda parts=parts: URL(SplitResult(*parts), encoded=True)))
+        members.append((("shift-build", lab), lambda parts=parts: URL.build(scheme=parts[0], authority=parts[1], path=parts[2], query_string=parts[3], fragment=parts[4], encoded=True)))
+    members.append((("shift-with_path", "?"), lambda: URL(base).with_path((path or "/") + "?" + hq, encoded=True)))
+    members.append((("shift-joinpath", "?"), lambda: URL(base).joinpath("x?y", encoded=True)))
+    members.append((("shift-ctor", "?"), lambda: URL(base).joinpath("x").with_query("y")))
     # SIBLINGS derived from one and the same object: they share its scheme / authority / path string objects and differ in one tail component
     sib = URL(base)
     for fr in ("sa", "sb", "", "sa%20"):
